@@ -2425,7 +2425,15 @@ where
     }
 
     fn peek_end_of_value(&mut self) -> Result<()> {
-        match tri!(self.de.peek()) {
+        let peek = match self.de.peek() {
+            Ok(peek) => peek,
+            Err(err) => {
+                // An I/O error ends the stream like any other failed read.
+                self.de.read.set_failed(&mut self.failed);
+                return Err(err);
+            }
+        };
+        match peek {
             Some(b' ' | b'\n' | b'\t' | b'\r' | b'"' | b'[' | b']' | b'{' | b'}' | b',' | b':')
             | None => Ok(()),
             Some(_) => {
